@@ -11,7 +11,7 @@ def run(i):
     for pid in props:
         if not os.path.exists('/verif/properties/%s.goals'%pid):
             res[pid]={'verdict':'no-check'}; continue
-        r=subprocess.run(['/verif/tools/seedtest.sh',pid,os.path.join(d,'patch.diff')],capture_output=True,text=True)
+        r=subprocess.run(['/verif/tools/seedtest.sh',pid,os.path.join(d,'patch.diff'),os.environ.get('TIER','quick')],capture_output=True,text=True)
         out=r.stdout
         viol=re.findall(r'VIOLATION property=\S+ replay=\S*/replays/\S+/(\S+?)\.json( no-failing-input-found)?',out)
         und=[l for l in out.split('\n') if l.startswith('UNDECIDED')]
@@ -20,7 +20,7 @@ def run(i):
         elif und: v='undecided'
         else: v='missed'
         res[pid]={'verdict':v,'violations':[a for a,b in viol][:12],'reproduced':[a for a,b in viol if not b][:12],'undecided':und[:6],'summary':[l for l in out.split('\n') if re.match(r'^C\d+:',l)]}
-    json.dump(res,open(os.path.join(d,'result.json'),'w'),indent=1)
+    json.dump(res,open(os.path.join(d,'result.json' if os.environ.get('TIER','quick')=='quick' else 'result_thorough.json'),'w'),indent=1)
     return i,res
 with concurrent.futures.ThreadPoolExecutor(4) as ex:
     for i,res in ex.map(run,ids):
